@@ -1168,7 +1168,7 @@ REG["jnp.imag"] = _ew1(alg.imag)
 REG["jnp.conj"] = _ew1(alg.conj)
 REG["jnp.conjugate"] = REG["jnp.conj"]
 REG["jnp.square"] = _ew1(lambda e: e * e)
-REG["jnp.negative"] = _ew1(lambda e: -e)
+REG["jnp.negative"] = lambda it, a, k, node: unop(it, ast.USub(), a[0], node)
 REG["jnp.invert"] = _ew1(lambda e: 1 - e)
 REG["jnp.logical_not"] = REG["jnp.invert"]
 for _n in ("sin", "cos", "tan", "tanh", "log", "log10", "sign", "floor", "ceil", "rint", "trunc", "isnan", "isfinite", "arctan", "sinh", "cosh"):
@@ -1199,10 +1199,11 @@ def _ew2(fn):
 
 REG["jnp.minimum"] = _ew2(lambda x, y: alg.fn("minimum", *sorted([x, y], key=repr)))
 REG["jnp.maximum"] = _ew2(lambda x, y: alg.fn("maximum", *sorted([x, y], key=repr)))
-REG["jnp.multiply"] = _ew2(lambda x, y: x * y)
-REG["jnp.add"] = _ew2(lambda x, y: x + y)
-REG["jnp.subtract"] = _ew2(lambda x, y: x - y)
-REG["jnp.divide"] = _ew2(lambda x, y: x / y)
+# the arithmetic ufuncs are the operators (this also keeps structural Terms, scan carries ... working)
+REG["jnp.multiply"] = lambda it, a, k, node: binop(it, ast.Mult(), a[0], a[1], node)
+REG["jnp.add"] = lambda it, a, k, node: binop(it, ast.Add(), a[0], a[1], node)
+REG["jnp.subtract"] = lambda it, a, k, node: binop(it, ast.Sub(), a[0], a[1], node)
+REG["jnp.divide"] = lambda it, a, k, node: binop(it, ast.Div(), a[0], a[1], node)
 REG["jnp.logical_and"] = _ew2(lambda x, y: x * y)
 REG["jnp.logical_or"] = _ew2(lambda x, y: x + y - x * y)
 
@@ -1263,6 +1264,8 @@ def _ndim(it, a, k, node):
         return x.ndim
     if isinstance(x, (list, tuple)):
         return as_tens(x).ndim
+    if isinstance(x, _I().Term):
+        return _I().Term("jnp.ndim", x)  # the rank of a structural leaf is unknown
     return 0
 
 
@@ -1482,7 +1485,17 @@ def _einsum(it, a, k, node):
     return T.einsum(a[0], *[_arr(x) for x in a[1:]])
 
 
-@reg("jnp.dot", "jnp.vdot", "jnp.inner")
+@reg("jnp.vdot")
+def _vdot(it, a, k, node):
+    # vdot flattens both operands and conjugates the first: sum(conj(x) * y) over all entries
+    x, y = _arr(a[0]), _arr(a[1])
+    if tuple(map(str, x.shape)) != tuple(map(str, y.shape)):
+        raise ShapeError(f"vdot of arrays with shapes {x.shape} and {y.shape}")
+    p = T.ewise(lambda u, v: alg.conj(u) * v, x, y)
+    return T.reduce(p, None, False, _sum_fold, SO.sym_sum)
+
+
+@reg("jnp.dot", "jnp.inner")
 def _dot(it, a, k, node):
     x, y = _arr(a[0]), _arr(a[1])
     if x.ndim != 1 or y.ndim != 1:
@@ -1679,7 +1692,17 @@ def _vmap(it, a, k, node):
         if is_sym(n):
             call_args = [x if t is None else Tens(t.shape[1:], t.data, t.meta) for x, t in zip(args, arrs)]
             r = it2.call(f, call_args, {}, node)
-            return tree_map_py(lambda leaf: _add_axis(leaf, n), r)
+            idxs = sorted({b for t in arrs if t is not None for e in t.data for b in e.all_atoms() if b[0] == "idx"}, key=repr)
+
+            def add(leaf):
+                if isinstance(leaf, I.Term):
+                    # a structure (e.g. a dynamic window) per mapped index: the same shape a scan over arange produces
+                    if len(idxs) != 1:
+                        raise Unsupported("vmap of a structural result without a unique mapped index")
+                    return I.Term("scan_map", leaf, idxs[0], n)
+                return _add_axis(leaf, n)
+
+            return tree_map_py(add, r)
         outs = []
         for i in range(n):
             call_args = [x if t is None else T.getitem(t, i) for x, t in zip(args, arrs)]
@@ -1687,6 +1710,14 @@ def _vmap(it, a, k, node):
         return _stack_trees(outs)
 
     return I.PyClosure(run, "vmapped")
+
+
+@reg("lax.map", "jax.lax.map")
+def _lax_map(it, a, k, node):
+    # sequential map over the leading axis: the same function of the inputs as vmap
+    f = a[0] if a else k["f"]
+    xs = a[1] if len(a) > 1 else k["xs"]
+    return it.call(_vmap(it, [f], {}, node), [xs], {}, node)
 
 
 def _add_axis(leaf, n):
@@ -1820,7 +1851,8 @@ def _tile(it, a, k, node):
 
 @reg("itertools.product")
 def _product(it, a, k, node):
-    return [tuple(x) for x in itertools.product(*[it.iterate(x, node) for x in a])]
+    rep = _I()._static_int(k.get("repeat", 1))
+    return [tuple(x) for x in itertools.product(*[it.iterate(x, node) for x in a], repeat=rep)]
 
 
 @reg("importlib.metadata.version")
@@ -1853,6 +1885,9 @@ TENS_METHODS = {
 }
 
 STRUCTURAL_TERM_OPS = {
+    "jnp.broadcast_to",
+    "jnp.shape",
+    "jnp.tile",
     "jnp.concatenate",
     "jnp.expand_dims",
     "jnp.repeat",
@@ -1941,6 +1976,14 @@ def call_builtin(interp, name, args, kwargs, node):
         start = I._static_int(a[1]) if len(a) > 1 else kwargs.get("start", 0)
         return list(enumerate(interp.iterate(a[0], node), start))
     if name == "zip":
+        lazies = [x for x in a if isinstance(x, LazyIter)]
+        if lazies:
+            finite = [interp.iterate(x, node) for x in a if not isinstance(x, LazyIter)]
+            if not finite:
+                raise Unsupported("zip of unbounded iterators only")
+            n_ = min(len(s_) for s_ in finite)
+            seqs = [x.take(n_) if isinstance(x, LazyIter) else interp.iterate(x, node)[:n_] for x in a]
+            return list(zip(*seqs))
         seqs = [interp.iterate(x, node) for x in a]
         if kwargs.get("strict") and len({len(s) for s in seqs}) > 1:
             raise I.RepoRaise("ValueError", node, interp.cur_file(), "zip() arguments have different lengths")
@@ -2305,3 +2348,117 @@ def _polyval(it, a, k, node):
         return r
 
     return x.map(ev)
+
+
+
+# ----------------------------------------------------------------------------- lazy itertools (consumed through zip / islice)
+
+
+class LazyIter:
+    """an unbounded Python iterator of the interpreted program (itertools.repeat / accumulate / count): only a finite
+    prefix is ever materialised, by the consumer that bounds it (zip with a finite sequence, islice)"""
+
+    def __init__(self, gen_factory, what):
+        self.gen_factory, self.what = gen_factory, what
+
+    def take(self, n):
+        out = []
+        g = self.gen_factory()
+        for _ in range(n):
+            out.append(next(g))
+        return out
+
+    def __repr__(self):
+        return f"<lazy {self.what}>"
+
+
+@reg("itertools.repeat")
+def _it_repeat(it, a, k, node):
+    x = a[0]
+    times = a[1] if len(a) > 1 else k.get("times")
+    if times is not None:
+        return [x] * _I()._static_int(times)
+
+    def gen():
+        while True:
+            yield x
+
+    return LazyIter(gen, "repeat")
+
+
+@reg("itertools.count")
+def _it_count(it, a, k, node):
+    start = a[0] if a else k.get("start", 0)
+    step = a[1] if len(a) > 1 else k.get("step", 1)
+
+    def gen():
+        v = start
+        while True:
+            yield v
+            v = binop(it, ast.Add(), v, step, node)
+
+    return LazyIter(gen, "count")
+
+
+@reg("itertools.accumulate")
+def _it_accumulate(it, a, k, node):
+    src = a[0]
+    f = a[1] if len(a) > 1 else k.get("func")
+    has_init = "initial" in k and k["initial"] is not None
+    init = k.get("initial")
+
+    def step(acc, x):
+        if f is None:
+            return binop(it, ast.Add(), acc, x, node)
+        return it.call(f, [acc, x], {}, node)
+
+    if isinstance(src, LazyIter):
+        def gen():
+            g = src.gen_factory()
+            if has_init:
+                acc = init
+            else:
+                acc = next(g)
+            yield acc
+            while True:
+                acc = step(acc, next(g))
+                yield acc
+
+        return LazyIter(gen, "accumulate")
+    seq = it.iterate(src, node)
+    out = []
+    if has_init:
+        acc = init
+        out.append(acc)
+    elif seq:
+        acc, seq = seq[0], seq[1:]
+        out.append(acc)
+    for x in seq:
+        acc = step(acc, x)
+        out.append(acc)
+    return out
+
+
+@reg("itertools.islice")
+def _it_islice(it, a, k, node):
+    src = a[0]
+    I = _I()
+    if len(a) == 2:
+        lo, hi, st = 0, I._static_int(a[1]), 1
+    else:
+        lo, hi, st = (0 if a[1] is None else I._static_int(a[1])), I._static_int(a[2]), (1 if len(a) < 4 or a[3] is None else I._static_int(a[3]))
+    seq = src.take(hi) if isinstance(src, LazyIter) else it.iterate(src, node)[:hi]
+    return seq[lo:hi:st]
+
+
+@reg("itertools.chain")
+def _it_chain(it, a, k, node):
+    out = []
+    for x in a:
+        out += it.iterate(x, node)
+    return out
+
+
+for _n, _op in (("mul", ast.Mult), ("add", ast.Add), ("sub", ast.Sub), ("truediv", ast.Div), ("pow", ast.Pow), ("matmul", ast.MatMult), ("floordiv", ast.FloorDiv), ("mod", ast.Mod)):
+    REG["operator." + _n] = _bin_fn(_op)
+REG["operator.neg"] = lambda it, a, k, node: unop(it, ast.USub(), a[0], node)
